@@ -221,3 +221,21 @@ Fixpoint pool_mismatches (i : nat) (l : list pool_obs) : list (nat * nat) :=
   | c :: r => let v := pool_check c in
               if Nat.eqb v 0 then pool_mismatches (S i) r else (i, v) :: pool_mismatches (S i) r
   end.
+
+(* crop coefficient and BBCH code of one traced day (DevModel.fkc_of / bbch_of in the growth block, fkc_pre / bbch_pre before emergence).
+   1 = FKC, 2 = BBCH *)
+Record fkc_obs := { fko_grown : bool; fko_first : bool; fko_kcini : float; fko_kcprev : float; fko_kc : float;
+                    fko_endprev : float; fko_end : float; fko_sum : float; fko_tsum : float; fko_o_fkc : float; fko_o_bbch : Z }.
+Definition fkc_check (o : fkc_obs) : nat :=
+  let '(f, bb) :=
+    if fko_grown o then
+      let r := relint_of (fko_sum o) (fko_tsum o) in
+      (fkc_of (fko_first o) (fko_kcini o) (fko_kcprev o) (fko_kc o) r, bbch_of (fko_first o) (fko_endprev o) (fko_end o) r)
+    else (fkc_pre (fko_kcini o) (fko_kc o) (fko_sum o) (fko_tsum o), bbch_pre (fko_end o) (fko_sum o) (fko_tsum o)) in
+  ((if float_same f (fko_o_fkc o) then 0 else 1) + (if Z.eqb bb (fko_o_bbch o) then 0 else 2))%nat.
+Fixpoint fkc_mismatches (i : nat) (l : list fkc_obs) : list (nat * nat) :=
+  match l with
+  | [] => []
+  | c :: r => let v := fkc_check c in
+              if Nat.eqb v 0 then fkc_mismatches (S i) r else (i, v) :: fkc_mismatches (S i) r
+  end.
